@@ -336,8 +336,18 @@ def _multi(vc):
 
 # ---------------------------------------------------------------------------- formulas
 
+def _replay_formulas(md, vparam, model, st):
+    src = {"linear": "LinearScaling(%r, %r, 0xFFFFFFFF)" % (model_num(md.get("b"), 1.5), model_num(md.get("m"), 2.0)),
+           "poly3": "PolynomialScaling([1.0, 2.0, 3.0], 0xFFFFFFFF)",
+           "poly0": "PolynomialScaling([], 0xFFFFFFFF)"}.get(vparam)
+    if src is None:
+        return None
+    return purity_replay(src, "scaling.%s.scale" % src.split("(")[0])
+
+
 @harness("structural_formulas", ["scaling.LinearScaling.scale", "scaling.PolynomialScaling.scale",
                                  "scaling.TableScaling.scale", "scaling.NoOpScaling.scale"], ["C13", "C17"],
+         replay=_replay_formulas,
          variants=[("linear", "linear"), ("polynomial-3", "poly3"), ("polynomial-0", "poly0"), ("table", "table"),
                    ("noop", "noop")],
          note="over the reals: Linear x*m+b, Polynomial = Horner with ascending coefficients, Table = clamped "
@@ -395,11 +405,66 @@ def _setup_sod(interp):
     _setup_rtd(interp)
 
 
+def model_num(x, default):
+    """model value of a real leaf (int, [num, den] or text) as a float"""
+    try:
+        if isinstance(x, (list, tuple)) and len(x) == 2:
+            return float(x[0]) / float(x[1])
+        if isinstance(x, bool) or x is None:
+            return default
+        return float(__import__("fractions").Fraction(str(x)))
+    except Exception:
+        return default
+
+
+def purity_replay(ctor_src, function):
+    """replay for the FRAME clause 'raw data not modified': build the scale with plausible parameters, scale a
+    float64 array (the case in which astype(copy=False) aliases the input) and compare the input before/after"""
+    script = """
+import sys
+import numpy as np
+from nptdms import scaling
+from nptdms.scaling import *
+s = %s
+x = np.array([0.00012, 0.00034, -0.0002, 0.0005], dtype=np.float64)
+before = x.copy()
+with np.errstate(all="ignore"):
+    try:
+        r = s.scale(x)
+    except Exception as e:
+        print("scale raised", repr(e)); sys.exit(0)
+print("input before", before, "after", x)
+sys.exit(0 if np.array_equal(before, x, equal_nan=True) else 1)
+""" % ctor_src
+    return {"script": script, "function": function}
+
+
+def _replay_sod(md, vparam, model, st):
+    kind, dt = vparam
+    if kind != "linear":
+        return None
+
+    num = model_num
+    m, b = num(md.get("m"), 1.0), num(md.get("b"), 0.0)
+    script = """
+import sys
+import numpy as np
+from nptdms.scaling import LinearScaling
+s = LinearScaling(%r, %r, 0xFFFFFFFF)
+x = np.array([1, 2], dtype=%r)
+r = s.scale(x)
+print("slope", %r, "intercept", %r, "input dtype", x.dtype, "-> output dtype", r.dtype)
+sys.exit(0 if r.dtype == np.dtype("float64") else 1)
+""" % (b, m, dt, m, b)
+    return {"script": script, "function": "scaling.LinearScaling.scale"}
+
+
 @harness("scale_output_dtype", ["scaling.LinearScaling.scale", "scaling.PolynomialScaling.scale",
                                 "scaling.TableScaling.scale", "scaling.NoOpScaling.scale", "scaling.RtdScaling.scale",
                                 "scaling.ThermistorScaling.scale", "scaling.StrainScaling.scale",
                                 "scaling.ThermocoupleScaling.scale", "scaling.AddScaling.scale",
                                 "scaling.SubtractScaling.scale"], ["C14", "C13"], variants=SOD_VARIANTS, setup=_setup_sod,
+         replay=_replay_sod,
          note="the array a scale returns has the dtype MultiScaling._compute_scale_dtype declares for it (double; "
               "the input's for NoOp; NumPy's result_type for Add/Subtract) for int16 / float32 / float64 input and "
               "every parameter value, including the identity Linear scale")
@@ -626,8 +691,13 @@ def bridge_output(cfg, e, G, nu):
     return (R3, R4, R2, R1)
 
 
+def _replay_strain(md, vparam, model, st):
+    return purity_replay("StrainScaling(%d, 0.3, 350.0, 1.5, 0.0001, 2.1, 1.0, 2.5, 0xFFFFFFFF)" % BRIDGES[vparam],
+                         "scaling.StrainScaling.scale")
+
+
 @harness("strain_inverts_wheatstone_bridge", "scaling.StrainScaling.scale", ["C17", "C13"],
-         variants=[(k, k) for k in sorted(BRIDGES)],
+         variants=[(k, k) for k in sorted(BRIDGES)], replay=_replay_strain,
          note="over the reals: the voltage a bridge of the configured type puts out for strain e (plus the initial "
               "bridge voltage) scales back to e times NI's gain and lead-wire corrections")
 def _strain(vc):
